@@ -1,5 +1,7 @@
 """C13 - interpolation honours the data and the requested grid."""
+import copy
 import math
+import warnings
 from fractions import Fraction
 
 import numpy as np
@@ -209,8 +211,8 @@ def any_x(draw, m, xmode=None):
 
 
 @st.composite
-def base(draw, ctx, affine=False, nonconstant=False, xmode=None, ykinds=None):
-    m = draw(st.integers(4, 60))
+def base(draw, ctx, affine=False, nonconstant=False, xmode=None, ykinds=None, m_lo=4):
+    m = draw(st.integers(m_lo, 60))
     xd = draw(any_x(m, xmode))
     x = xd["x"]
     case = dict(x=x, xkind=xd["kind"], xint=bool(xd["int"]))
@@ -502,22 +504,11 @@ def weaver_n_body(ctx, case):
     gx, gy = get_pair(w, "interpolate(n)")
     gx = check_array(gx, n, f"interpolate({n}): x")
     gy = check_array(gy, n, f"interpolate({n}): y")
-    x0, xe = case["x"][0], case["x"][-1]
-    if gx[0] != x0 or gx[-1] != xe:
-        raise Violation(f"interpolate({n}): new grid spans [{float(gx[0])!r}, {float(gx[-1])!r}], the data span "
-                        f"[{x0!r}, {xe!r}]")
-    grid = [float(v) for v in gx]
-    h = (Fraction(xe) - Fraction(x0)) / (n - 1)
     # numpy.linspace (start + arange*step, end point forced) is itself only equally spaced to rounding: a search over
     # 2e5 (start, stop, n) found steps 3.64 ulp(max|x|) off (start=-63.598953885392184, stop=59.998691563692546,
     # n=223) and the rounding analysis allows about 5.5, so DESIGN's 4 ulp would raise false alarms; 16 ulp is still
     # orders of magnitude below one step of every generated grid
-    tol = Fraction(STEP_ULPS * float(np.spacing(max(abs(float(x0)), abs(float(xe))))))
-    for j in range(n - 1):
-        step = Fraction(grid[j + 1]) - Fraction(grid[j])
-        if abs(step - h) > tol:
-            raise Violation(f"interpolate({n}): step {j} is {float(step)!r}, equal spacing needs {float(h)!r} "
-                            f"(tolerance {STEP_ULPS} ulp = {float(tol):.3g})")
+    grid = check_n_grid(gx, n, case["x"][0], case["x"][-1], f"interpolate({n})")
     aff = (case["p"], case["c"]) if case["ykind"] == "affine" and method != "constant" else None
     check_values(method, case["x"], case["y"], grid, gy, affine=aff, where=f"Weaver.interpolate({n}): ")
     cls = common_classes(case)
@@ -658,6 +649,188 @@ def weaver_grid_body(ctx, case):
     ctx.record(case, cls, nontrivial=nt)
 
 
+# ---- histories through one Weaver -------------------------------------------------------------------------------------
+
+def check_n_grid(gx, n, x0, xe, where):
+    """exactly n points, first/last equal to x0/xe, steps equal to (xe - x0)/(n - 1) within STEP_ULPS ulp."""
+    if gx[0] != x0 or gx[-1] != xe:
+        raise Violation(f"{where}: new grid spans [{float(gx[0])!r}, {float(gx[-1])!r}], the data span "
+                        f"[{x0!r}, {xe!r}]")
+    grid = [float(v) for v in gx]
+    h = (Fraction(xe) - Fraction(x0)) / (n - 1)
+    tol = Fraction(STEP_ULPS * float(np.spacing(max(abs(float(x0)), abs(float(xe))))))
+    for j in range(n - 1):
+        step = Fraction(grid[j + 1]) - Fraction(grid[j])
+        if abs(step - h) > tol:
+            raise Violation(f"{where}: step {j} is {float(step)!r}, equal spacing needs {float(h)!r} "
+                            f"(tolerance {STEP_ULPS} ulp = {float(tol):.3g})")
+    return grid
+
+
+def poly_trend(coef):
+    return lambda t: coef[0] * t + coef[1] * t * t
+
+
+def grid_from_spec(cx, spec):
+    """new grid derived from the CURRENT abscissae (so it shares their end points whatever the history did):
+    spec = list of [u, t]: the point lies t of the way through the cell floor(u*(m-1)); t = 0 is the sample."""
+    m = len(cx)
+    pts = [cx[0], cx[-1]]
+    for u, t in spec:
+        i = min(int(u * (m - 1)), m - 2)
+        pts.append(cx[i] + t * (cx[i + 1] - cx[i]) if t else cx[i])
+    return sorted(min(max(v, cx[0]), cx[-1]) for v in pts)
+
+
+def prep_grid(cx, how):
+    """grid for a preparatory interpolate(new_x=...): strictly increasing, same end points, bounded gap ratio."""
+    m = len(cx)
+    if how[0] == "shift":                       # every interior sample moved forward by t of its gap
+        t = how[1]
+        return [cx[0]] + [cx[i] + t * (cx[i + 1] - cx[i]) for i in range(1, m - 1)] + [cx[-1]]
+    if how[0] == "refine":                      # every cell split at its midpoint
+        out = []
+        for a, b in zip(cx[:-1], cx[1:]):
+            out += [a, a + (b - a) / 2]
+        return out + [cx[-1]]
+    k = how[1]                                   # thin: every k-th sample, both ends kept
+    inner = [cx[i] for i in range(k, m - 1, k)]
+    return [cx[0]] + inner + [cx[-1]]
+
+
+def usable(cx):
+    """strictly increasing, >= 5 samples, max/min gap ratio <= 1e2 (the range in which the spline tolerances hold)"""
+    d = [b - a for a, b in zip(cx[:-1], cx[1:])]
+    return len(cx) >= 5 and min(d) > 0 and max(d) <= 1e2 * min(d)
+
+
+@st.composite
+def weaver_history_case(draw, ctx):
+    case = draw(base(ctx, nonconstant=True, m_lo=6))
+    steps = []
+    for _ in range(draw(st.integers(1, 4))):
+        op = draw(st.sampled_from(["shift_y", "scale_y", "shift_x", "scale_x", "trend", "trend", "noise", "noise",
+                                   "smooth", "smooth", "interpolate", "interpolate"]))
+        if op == "shift_y":
+            step = dict(op=op, arg=draw(st.one_of(st.sampled_from([1.0, -2.5, 10.0]), fl(-100.0, 100.0))))
+        elif op == "scale_y":
+            step = dict(op=op, arg=draw(st.sampled_from([2.0, 0.5, -1.0, 3.0, -0.25, 10.0])))
+        elif op == "shift_x":
+            step = dict(op=op, arg=draw(st.one_of(st.integers(-64, 64).map(lambda k: k / 8.0),
+                                                  st.integers(-1000, 1000).map(float))))
+        elif op == "scale_x":
+            step = dict(op=op, arg=draw(st.sampled_from([2.0, 0.5, 4.0, 0.25])))
+        elif op == "trend":
+            step = dict(op=op, arg=[draw(fl(-5.0, 5.0)), draw(st.one_of(st.just(0.0), fl(-5.0, 5.0)))], normalized=True)
+        elif op == "noise":
+            step = dict(op=op, arg=draw(fl(0.0, 40.0)), seed=draw(st.integers(0, 2 ** 31 - 1)))
+        elif op == "smooth":
+            step = dict(op=op, arg=draw(st.sampled_from([0.01, 0.1, 1.0, 10.0, 100.0])))
+        else:
+            how = draw(st.one_of(st.tuples(st.just("n"), st.integers(6, 60)),
+                                 st.tuples(st.just("shift"), fl(0.2, 0.8)),
+                                 st.tuples(st.just("refine")),
+                                 st.tuples(st.just("thin"), st.integers(2, 3))))
+            step = dict(op=op, how=list(how), method=draw(st.sampled_from(METHODS)))
+        steps.append(step)
+    case["steps"] = steps
+    if draw(st.sampled_from(["n", "grid", "n", "grid"])) == "n":
+        case["final"] = dict(n=draw(st.one_of(st.integers(2, 12), st.integers(13, 120))))
+    else:
+        spec = draw(st.lists(st.tuples(fl(0.0, 1.0), st.one_of(st.just(0.0), fl(0.0, 1.0))), min_size=0, max_size=25))
+        case["final"] = dict(spec=[list(v) for v in spec])
+    case["gc"] = draw(st.sampled_from(["array", "array", "list"]))
+    return case
+
+
+def apply_step(w, step):
+    op = step["op"]
+    if op == "trend":
+        w.trend(poly_trend(step["arg"]), normalized=step["normalized"])
+    elif op == "noise":
+        np.random.seed(step["seed"])
+        w.noise(step["arg"])
+    elif op == "interpolate":
+        how = step["how"]
+        if how[0] == "n":
+            w.interpolate(how[1], method=step["method"])
+        else:
+            cur = [float(v) for v in w.get()[0]]
+            w.interpolate(new_x=np.array(prep_grid(cur, how)), method=step["method"])
+    else:
+        getattr(w, op)(step["arg"])
+
+
+def pair_state(pair):
+    return tuple((str(np.asarray(a).dtype), np.asarray(a).shape, np.asarray(a).tobytes()) for a in pair)
+
+
+def weaver_history_body(ctx, case):
+    xi, yi = inputs(case)
+    w = Weaver(xi, yi)
+    done = []
+    with warnings.catch_warnings(record=True) as log:
+        warnings.simplefilter("always")
+        for step in case["steps"]:
+            cur = [float(v) for v in w.get()[0]]
+            if step["op"] in ("smooth", "interpolate") and not usable(cur):
+                ctx.count("history-left-the-conditioned-range")
+                return
+            apply_step(w, step)
+            done.append(step["op"])
+    if any(issubclass(r.category, (RuntimeWarning, UserWarning)) for r in log):
+        ctx.count("discarded_fitpack")
+        return
+    pair = get_pair(w, "history")
+    cx = [float(v) for v in pair[0]]
+    cy = [float(v) for v in pair[1]]
+    if len(cx) != len(cy) or not usable(cx) or not all(math.isfinite(v) for v in cy):
+        ctx.count("history-left-the-conditioned-range")
+        return
+    hist = " > ".join(done)
+    final = case["final"]
+    for method in METHODS:
+        v = copy.deepcopy(w)
+        ref0, orig0 = pair_state(v.get_reference()), pair_state(v.get_original())
+        if "n" in final:
+            n = final["n"]
+            where = f"after {hist}: interpolate({n}, {method!r})"
+            ret = v.interpolate(n, method=method)
+            gx, gy = get_pair(v, where)
+            gx = check_array(gx, n, where + ": x")
+            gy = check_array(gy, n, where + ": y")
+            grid = check_n_grid(gx, n, cx[0], cx[-1], where)
+        else:
+            grid = grid_from_spec(cx, final["spec"])
+            where = f"after {hist}: interpolate(new_x, {method!r})"
+            ret = v.interpolate(new_x=list(grid) if case["gc"] == "list" else np.array(grid), method=method)
+            gx, gy = get_pair(v, where)
+            gx = np.asarray(gx)
+            if gx.shape != (len(grid),) or not np.array_equal(gx, np.array(grid)):
+                raise Violation(f"{where} did not adopt the given grid as x")
+            gy = check_array(gy, len(grid), where + ": y")
+        if ret is not v:
+            raise Violation(f"{where} did not return self")
+        # the oracles of the fresh-Weaver sub-checks, applied to the CURRENT series (cx, cy)
+        check_values(method, cx, cy, grid, gy, where=where + ": ")
+        if pair_state(v.get_reference()) != ref0:
+            raise Violation(f"{where} changed the reference series")
+        if pair_state(v.get_original()) != orig0:
+            raise Violation(f"{where} changed the original series")
+    cls = common_classes(case)
+    cls |= {"op:" + o for o in done}
+    cls |= {"prep-interpolate:" + s_["how"][0] for s_ in case["steps"] if s_["op"] == "interpolate"}
+    cls.add("final:n" if "n" in final else "final:new_x")
+    cls.add(f"steps:{len(done)}")
+    rx, ry = (np.asarray(a, dtype=float) for a in w.get_reference())
+    diverged = rx.shape != (len(cx),) or not (np.array_equal(rx, cx) and np.array_equal(ry, cy))
+    cls.add("working != reference" if diverged else "working == reference")
+    ox, oy = (np.asarray(a, dtype=float) for a in w.get_original())
+    cls.add("working != original" if ox.shape != (len(cx),) or not (np.array_equal(ox, cx) and np.array_equal(oy, cy))
+            else "working == original")
+    ctx.record(case, cls, nontrivial=diverged)
+
+
 SUBCHECKS = [
     Sub("at_samples", "hyp", at_samples_body, quick=400, thorough=8000,
         strategy=lambda ctx: grid_case(ctx, profiles=["same", "same", "superset", "subset", "same-int", "same-int"]),
@@ -674,6 +847,9 @@ SUBCHECKS = [
         clause="linear, cubic and spline reproduce affine data inside the range"),
     Sub("weaver_n", "hyp", weaver_n_body, strategy=weaver_n_case, quick=400, thorough=8000,
         clause="Weaver.interpolate(n): exactly n equally spaced points spanning the same range, values per method"),
+    Sub("weaver_history", "hyp", weaver_history_body, strategy=weaver_history_case, quick=300, thorough=4000,
+        clause="after 1..4 preparatory steps on one Weaver, interpolate (n or new_x, every method) acts on the CURRENT "
+               "working series: all oracles above applied to copies of get(); reference and original untouched"),
     Sub("weaver_grid", "hyp", weaver_grid_body, strategy=weaver_grid_case, quick=400, thorough=8000,
         clause="Weaver.interpolate(new_x): grid adopted when both end points agree, otherwise (and for an unknown "
                "method) ValueError with the Weaver unchanged"),
